@@ -4,6 +4,7 @@ import random
 
 import gen_line as G
 import line_engine as LE
+import e2e_engine as E2E
 import vf
 
 TRUSTED = [
@@ -132,5 +133,10 @@ def run(rep, tier, seed, replay):
                       no_input=not rep.violations)
     rep.extra["input_distribution"] = dist
     rep.extra["disagreements_with_model"] = len(bad)
+    if not replay and len(rep.violations) < 5:
+        # the binary's --[no-]statsd.parse-* flags and its three listeners, on the same renderings
+        E2E.run(rep, "C09", tier, seed, n_quick=48, n_thorough=1500, gen=E2E.gen_c09_case, key="e2e_flags")
+        rep.cov["rule"] += ("; plus %d end-to-end cases: the built binary started with each of the 16 --[no-]statsd.parse-* flag sets, 2-6 data in their four renderings sent over "
+                            "TCP / UDP / unixgram, /metrics and the parser's counters compared with the model" % rep.extra.get("e2e_flags_cases", 0))
     for k in (0, len(cases) // 3, len(cases) - 1):
         rep.sample(dict(flags=cases[k][0], line=repr(cases[k][1]), impl=impl[k]))
